@@ -196,6 +196,17 @@ def index_from_own_enumeration(P, D, s, prop=None):
             todo.append(x[3])
         elif x[0] == "payload" and x[1] == "Some" and norm(x[2])[0] == "agg" and norm(x[2])[2] == "None":
             continue                      # the Some payload of a None: not a value
+        elif x[0] == "field" and norm(x[1])[0] == "payload" and norm(x[1])[1] == "Some" and norm(norm(x[1])[2])[0] == "agg" and norm(norm(x[1])[2])[2] == "None":
+            continue                      # ... nor is a field of it
+        elif x[0] == "field" and norm(x[1])[0] == "payload" and norm(x[1])[1] == "Some" and norm(norm(x[1])[2])[0] == "phi":
+            todo.extend(("field", ("payload", "Some", y), x[2]) for y in norm(norm(x[1])[2])[1])
+        elif x[0] == "field" and norm(x[1])[0] == "payload" and norm(x[1])[1] == "Some" and norm(norm(x[1])[2])[0] == "agg" and \
+                norm(norm(x[1])[2])[2] == "Some" and norm(norm(norm(x[1])[2])[3][0][1])[0] == "agg":
+            inner = dict(norm(norm(norm(x[1])[2])[3][0][1])[3])       # Some((a, b)).0  ->  a
+            if x[2] in inner:
+                todo.append(inner[x[2]])
+            else:
+                leaves.append(x)
         elif x[0] == "payload" and x[1] == "Some" and norm(x[2])[0] in ("phi", "agg") and norm(x[2])[0] == "phi":
             todo.extend(("payload", "Some", y) for y in norm(x[2])[1])
         elif x[0] == "payload" and x[1] == "Some" and norm(x[2])[0] == "agg" and norm(x[2])[2] == "Some":
@@ -226,11 +237,17 @@ def forward_route_first_server(P, D, s, prop=None):
     idx = norm(pr.T.operand(s.ops[1], s.bb, n))
     if not is_const(idx, 0):
         return None
-    if not (base[0] == "payload" and base[1] == "Forward" and norm(base[2])[0] == "field" and norm(base[2])[2] == "dest"):
+    alts = [base]
+    if base[0] == "phi":
+        alts = [_strip_refs(y) for y in base[1] if not (norm(y)[0] == "payload" and norm(norm(y)[2])[0] == "agg" and norm(norm(y)[2])[2] == "None")]
+    for a_ in alts:
+        if not (a_[0] == "payload" and a_[1] == "Forward" and _strip_refs(a_[2])[0] == "field" and _strip_refs(a_[2])[2] == "dest"):
+            return None
+        ty = pr.ranger.typer.of(oblig.canon(norm(_strip_refs(a_[2])[1]))) or ""
+        if ty and not oblig._strip_ref(ty).endswith("dns::config::Route"):
+            return None            # (Handler::Forward is the only `Forward` variant with a `dest` field in front of it)
+    if not alts:
         return None
-    ty = pr.ranger.typer.of(oblig.canon(norm(norm(base[2])[1]))) or ""
-    if ty and not oblig._strip_ref(ty).endswith("dns::config::Route"):
-        return None            # (Handler::Forward is the only `Forward` variant with a `dest` field in front of it)
     if prop == "C05":
         return {"class": "config", "requires": (), "pattern": "forward-route-first-server",
                 "why": "dest[0] of a forward route: the server list comes from the configuration"}
